@@ -113,8 +113,8 @@ theorem nested_mutation_of_borrowed_accepted (s : Shape) (path : List Step) (b :
   simp [mutateAt, h]
 
 /-- **C22 (frozenlist)**: `frozenlist` derives from `list` and overrides every mutating method of
-    CPython 3.12's `list` with a body that only raises `GuppyComptimeError` (`decide` over the table
-    regenerated from tracing/frozenlist.py; the domain is this finite table). -/
+    CPython 3.12's `list`, and each override, called on a real instance, raises `GuppyComptimeError` and leaves the list unchanged (`decide` over the table
+    regenerated from tracing/frozenlist.py — names from the AST, the flag from behaviour; the domain is this finite table). -/
 theorem frozen_rejects_all :
     frozenBases = ["list"] ∧ ∀ m ∈ mutatingListMethods, (m, true) ∈ frozenOverrides := by
   decide
